@@ -35,86 +35,45 @@ def _reg(ctx, name):
 
 
 def rule_1(ctx):
+    import datetime as dt
+    from xlsa.guards import World
     um = ctx.mod('xlfunctions.utils')
     n2d = um.func('number_to_datetime')
     d2n = um.func('datetime_to_number')
-    p = func_params(n2d)[0]
-    for serial in (1, 2, 58, 59, 61, 62, 100, 45000):
-        seen = {}
 
-        def td(*a, **kw):
-            seen.update(kw)
-            if a:
-                seen['days'] = a[0]
-            return Opaque('timedelta')
-        it = Interp(ctx.a, um, {p: serial}, call_models={'ext:datetime.timedelta': td})
-        out = it.run(n2d.body)
-        want = serial - 1 if serial <= 59 else serial - 2
-        ctx.expect(seen.get('days') == want, n2d, f'number_to_datetime({serial}): day index',
-                   f'serial {serial} is mapped to day index {seen.get("days")!r} after 1900-01-01, expected {want} '
+    def conv(name, arg):
+        it = Interp(ctx.a, um, {'v': arg}, inline_pkg=True, world=World())
+        out = it.run(ast.parse(f'return {name}(v)').body)
+        return out.value if out.end == 'return' else f'<{out.end} {out.value!r}>'
+    day0 = dt.datetime(1900, 1, 1)
+    for serial in (1, 2, 58, 59, 61, 62, 100, 45000):
+        want = day0 + dt.timedelta(days=serial - 1 if serial <= 59 else serial - 2)
+        got = conv('number_to_datetime', serial)
+        ctx.expect(got == want, n2d, f'number_to_datetime({serial}): day index',
+                   f'serial {serial} is mapped to {got!r}, expected {want!r} '
                    f'(serial 59 = 1900-02-28, serial 61 = 1900-03-01; serial 60 is the phantom leap day)')
     # the time of day: seconds = frac * 86400
-    secs = None
-    for c in flow.calls_in(n2d):
-        if ctx.res.resolve(c.func, um) == 'ext:datetime.timedelta':
-            for k in c.keywords:
-                if k.arg == 'seconds':
-                    secs = k.value
-    ok = False
-    if secs is not None:
-        # (value % 1) * 24 * 60 * 60 -> coefficient of the fractional part
-        class _Frac(ast.NodeTransformer):
-            def visit_BinOp(self, n):
-                self.generic_visit(n)
-                if isinstance(n.op, ast.Mod) and isinstance(n.right, ast.Constant) and n.right.value == 1:
-                    return ast.Name(id='frac', ctx=ast.Load())
-                return n
-        e = _Frac().visit(ast.parse(ast.unparse(secs), mode='eval').body)
-        try:
-            lf = linear(e, {'frac': Lin.var('frac')})
-            ok = lf == Lin(0, {'frac': 86400})
-        except Unmodelled:
-            ok = False
-    ctx.expect(ok, n2d, 'time of day: seconds = fraction * 86400', 'the fraction of a serial is not converted to seconds with the factor 86400')
+    wrong = []
+    for serial, want in ((61.5, dt.datetime(1900, 3, 1, 12, 0)), (45000.25, dt.datetime(2023, 3, 15, 6, 0)), (1.75, dt.datetime(1900, 1, 1, 18, 0)),
+                         (45000.125, dt.datetime(2023, 3, 15, 3, 0))):
+        got = conv('number_to_datetime', serial)
+        if got != want:
+            wrong.append(f'{serial} -> {got!r} instead of {want!r}')
+    ctx.expect(not wrong, n2d, 'time of day: seconds = fraction * 86400', 'the fraction of a serial is not converted to seconds with the factor 86400: ' + '; '.join(wrong))
     # inverse
-    first = d2n.body[0]
-    while isinstance(first, ast.Expr):
-        first = d2n.body[d2n.body.index(first) + 1]
-    ok = isinstance(first, ast.Assign) and isinstance(first.value, ast.BinOp) and isinstance(first.value.op, ast.Sub) \
-        and ctx.res.resolve(first.value.right, um) == 'pkg:xlfunctions.utils:EXCEL_EPOCH'
-    if not ok:
-        raise Unmodelled('datetime_to_number does not start with delta = value - EXCEL_EPOCH')
-    dname = first.targets[0].id
-    rest = d2n.body[d2n.body.index(first) + 1:]
     for days in (0, 1, 57, 58, 59, 60, 99, 44998):
-        it = Interp(ctx.a, um, {dname: Rec(days=days, seconds=0)})
-        out = it.run(rest)
         want = days + 1 if days <= 58 else days + 2
-        got = out.value if out.end == 'return' else out.end
-        ctx.expect(got == want, d2n, f'datetime_to_number(epoch + {days} days)',
+        got = conv('datetime_to_number', day0 + dt.timedelta(days=days))
+        ctx.expect(got == want and not isinstance(got, bool), d2n, f'datetime_to_number(epoch + {days} days)',
                    f'the date {days} days after 1900-01-01 gets serial {got!r}, expected {want} (1900-02-28 is day 58 -> serial 59, '
                    f'1900-03-01 is day 59 -> serial 61): the two conversions are not inverse to each other')
-    r = last_return(d2n)
-    ok = False
-    why = 'datetime_to_number does not add the time of day as seconds/86400'
-    if r is not None:
-        class _Sec(ast.NodeTransformer):
-            def visit_Attribute(self, n):
-                if n.attr == 'seconds':
-                    return ast.Name(id='seconds', ctx=ast.Load())
-                if n.attr == 'days':
-                    return ast.Name(id='days', ctx=ast.Load())
-                return n
-        e = _Sec().visit(ast.parse(ast.unparse(r.value), mode='eval').body)
-        try:
-            lf = linear(e, {'seconds': Lin.var('seconds'), 'days': Lin.var('days'), 'offset': Lin.var('offset')})
-            coef = lf.coefs.get('seconds', Fraction(0))
-            ok = coef == Fraction(1, 86400)
-            why = (f'the seconds of the time of day enter the serial with the factor {coef} instead of 1/86400 '
-                   f'(`{ast.unparse(r.value)}`): noon adds {float(coef * 43200):.0f} to the serial instead of 0.5')
-        except Unmodelled:
-            pass
-    ctx.expect(ok, d2n, 'time of day: serial fraction = seconds / 86400', why)
+    wrong = []
+    for when, want in ((dt.datetime(2023, 3, 15, 12, 0), 45000.5), (dt.datetime(1900, 3, 1, 6, 0), 61.25), (dt.datetime(1900, 1, 1, 18, 0), 1.75)):
+        got = conv('datetime_to_number', when)
+        if not (isinstance(got, (int, float)) and not isinstance(got, bool) and abs(got - want) < 1e-9):
+            wrong.append(f'{when.isoformat()} -> {got!r} instead of {want}')
+    ctx.expect(not wrong, d2n, 'time of day: serial fraction = seconds / 86400',
+               'the seconds of the time of day do not enter the serial with the factor 1/86400 (noon must add 0.5): ' + '; '.join(wrong))
     ctx.floor(18, 'critical serials/day counts + time-of-day coefficients')
 
 
